@@ -1152,6 +1152,34 @@ static void run_sig(void)
 }
 #endif
 
+#ifdef FLAVOR_BP
+/* bp: a signal that arrives while the fork handlers keep signals blocked stays pending across fork() and is delivered when the
+ * mask is restored - in the parent and in the child, on a thread that may not be registered yet (its handler then registers it) */
+static void run_sig_fork(void)
+{
+	pid_t pid;
+
+	if (vrt_param("main_registered", 0)) {
+		rcu_read_lock();
+		rcu_read_unlock();
+	}
+	vrt_signal_setup(1u, sig_handler);
+	urcu_bp_before_fork();
+	pid = fork();
+	if (pid == 0)
+		urcu_bp_after_fork_child();
+	else
+		urcu_bp_after_fork_parent();
+	rcu_read_lock();
+	(void)LD(x);
+	rcu_read_unlock();
+	ST(x, 1);
+	do_sync();
+	ST(y, 1);
+	vrt_signal_setup(0, NULL);
+}
+#endif
+
 /* ---- C17: the read side of a registered thread is wait-free -------------------------------------------------------------- */
 static void *upd_victim(void *a)
 {
@@ -1296,6 +1324,9 @@ struct vrt_scenario vrt_scenarios[] = {
 	{ "slot_reuse", run_slot_reuse, "bp: sequential threads reuse the exited thread's reader slot" },
 #endif
 #ifndef FLAVOR_QSBR
+#ifdef FLAVOR_BP
+	{ "sig_fork", run_sig_fork, "bp: signal pending across fork() bracketed by the bp fork handlers, followed into child or parent" },
+#endif
 	{ "sig", run_sig, "signal handler with a read-side section interrupts reader / updater at every point" },
 #endif
 	{ NULL, NULL, NULL }
